@@ -64,6 +64,11 @@ def step (_ : Unit) (ws : List String) : Unit × String :=
     | "sink" :: recs => match recs.mapM parseRec with
       | some rs => showPaths (sink rs [])
       | none => "bad-op"
+    | "sinknew" :: f :: recs => match recs.mapM parseRec with
+      | some rs =>
+        let ps := sinkNew rs (f == "1")
+        if ps.isEmpty then "-" else String.intercalate ";" (ps.map fun p => if p.isEmpty then "@" else showPath p)
+      | none => "bad-op"
     | "get" :: toks =>
       let (es, _) := parseEntries toks
       let (ps, ab) := copyEntries [] es
